@@ -388,11 +388,11 @@ type failure struct {
 }
 
 type exchangeResult struct {
-	reads    [2][][]byte // reads[i] = what side i read (sent by side 1-i)
-	fails    []failure   // in order of occurrence; after the first one the link is torn down, so later ones are usually consequences
-	panics   []string
-	hung     bool
-	dump     string
+	reads  [2][][]byte // reads[i] = what side i read (sent by side 1-i)
+	fails  []failure   // in order of occurrence; after the first one the link is torn down, so later ones are usually consequences
+	panics []string
+	hung   bool
+	dump   string
 }
 
 // sentinel is the message each side sends after all its writers have returned. A transport that keeps order delivers
@@ -699,7 +699,7 @@ func judgeDirection(prefix string, d *direction, eff string, wbits int, concurre
 			"split": "peer Read returned a part of a message",
 			"bytes": "peer Read returned a byte string that was never written",
 		}[what]
-		return &finding{clause, prefix + ":peer-read-" + map[string]string{"order": "order-or-loss"}[what] + map[string]string{"glued": "glued", "split": "split", "bytes": "bytes"}[what] + cc, wit("read_index", failAt, "read_head", head(d.recv[failAt]), "read_len", len(d.recv[failAt]), "detail", extra)}, o
+		return &finding{clause, prefix + ":peer-read-" + map[string]string{"order": "order-or-loss", "glued": "glued", "split": "split", "bytes": "bytes"}[what] + cc, wit("read_index", failAt, "read_head", head(d.recv[failAt]), "read_len", len(d.recv[failAt]), "detail", extra)}, o
 	}
 	if len(d.recv) != nSent {
 		return &finding{"peer Read returned fewer messages than were written", prefix + ":peer-read-count" + cc, wit()}, o
